@@ -193,6 +193,11 @@ def run(case: dict, ctx) -> dict:
         in_use=rng.random() < 0.2,
     )
     model = Model(meta["size"], [layer])
+    if sf.end <= (8 << 20) and case["i"] % 4 == 0:
+        from vf.diskcheck import triangulate
+
+        triangulate(rng, RefHDS(sf.to_bytes()), model, "hds")
+        res["cnt"]["writer_triangulations"] = 1
     if k == "hds":
         fh = as_handle(sf.to_bytes() if sf.end <= (8 << 20) else sf)
         o = call(HDS, fh)
